@@ -202,7 +202,7 @@ pub fn gen_walk(t: &mut Tape, max_len: usize) -> Vec<Rdh> {
         }
         // mutations (never on the first two: the domain starts at an HBF start with pages 0 and 1)
         if i >= 2 && t.chance(mut_rate, 32) {
-            match t.below(12) {
+            match t.below(13) {
                 0 => r.pages_counter = r.pages_counter.wrapping_add(1 + t.below(3) as u16),
                 1 => r.pages_counter = 0,
                 2 => r.stop_bit = *t.pick(&[0u8, 1, 2, 3, 255]),
@@ -214,7 +214,9 @@ pub fn gen_walk(t: &mut Tape, max_len: usize) -> Vec<Rdh> {
                 8 => r.trigger_type = *t.pick(&[0u32, 1 << 15, 1 << 26]),
                 9 => r.detector_field = 1 << (12 + t.below(12)),
                 10 => r.version ^= 1,
-                _ => r.format_word = *t.pick(&[0u64, 2, 3, 0x100]),
+                11 => r.format_word = *t.pick(&[0u64, 2, 3, 0x100]),
+                // only a violation when an ITS target is selected
+                _ => r.system_id = *t.pick(&[0x21u8, 0x1F, 0x00, 0xFF, 0x22]),
             }
             // a mutation may desynchronise the generator's own notion of the HBF: follow what was emitted
             if r.stop_bit == 1 {
@@ -268,7 +270,15 @@ fn cli_case(t: &mut Tape, w: &Worker) -> CaseResult {
     }
     let mut case = CliCase::new(w, bytes.clone());
     let stdin = t.chance(1, 2);
-    let (spec, o) = case.run(mode.args(), stdin);
+    let mut args = mode.args();
+    // a custom-checks file that configures the version the first RDH carries anyway must not change any verdict
+    let with_custom_version = t.chance(1, 3);
+    if with_custom_version {
+        let cfile = w.write("checks.toml", format!("rdh_version = {}\n", first.version).as_bytes());
+        args.push("--checks-toml".into());
+        args.push(cfile.display().to_string());
+    }
+    let (spec, o) = case.run(args, stdin);
     if let Some(f) = crash_check(&spec, &o, &bytes, &[0, 1]) {
         return Err(f);
     }
